@@ -29,7 +29,7 @@ CFG = {
             "existing-layer strategy). Then seeded sampling: layer histories (<=14 ops quick / <=30 thorough over 3 layer names, struct and trait ops mixed), "
             "data-driven buildpack runs as detect (provides/requires/or with multi-key metadata) and build (layers via both APIs, launch.toml with several "
             "processes/labels/slices, store with nested multi-key metadata, build and launch SBOMs, pre-existing store). Each scenario = 4 fresh processes "
-            "(own temp root each; std's hash seed differs per process), runs 2-4 compared with run 1 line by line over exit status, step results and a raw "
+            "(10 when a single case is replayed: corpus, shrinking, --replay; own temp root each; std's hash seed differs per process), runs 2-4 compared with run 1 line by line over exit status, step results and a raw "
             "snapshot (path, mode, hex of all bytes) of the layers directory and the plan file; 1 in 16 scenarios waits 1.1 s before the last run "
             "(second-resolution timestamps). non-trivial = some single write involves >=3 hash-ordered keys (process types or exec.d programs) "
             "or the run writes a TOML document with >=2 table keys / array entries; distinct = distinct input line",
